@@ -3,6 +3,16 @@ import json
 props = [json.loads(l) for l in open("/verif/properties.jsonl")]
 E1 = "symbolic execution of the real Python code with an SMT solver (CrossHair/z3), bounded box, partitioned; counterexamples replayed on the plain interpreter"
 CLAIMED = {
+    "C02": dict(text="22 single-fault classes planted by a symbolic fault planter (fault class x location x delta x width x array size) into a valid hierarchical design with bundle port, array, pair, port reference and no-connect; whether the mutated design really is ill-formed is decided by the independent validity predicate vlib.dsl.ref_valid; post: elaborate, to_proto and netlist each raise",
+                note="trusted: ref_valid (transcription of the property's list), CrossHair/z3; name clashes are checked on to_proto/netlist only (the export name space)", tech=E1),
+    "C05": dict(text="one harness per naming site (named / unnamed / shared no-connect, implicit port-reference signal, flattened bundle member, array element, pair member, underscore retry) with the DESIGNER'S NAME A SYMBOLIC STRING (any characters, length <= 3 quick / 5 thorough) and both declaration orders; identity-level post-condition on the elaborated objects; exported partition checked in the concrete replay",
+                note="protobuf rejects proxy strings: package-level observation only in replay; trusted CrossHair string theory (z3 seq)", tech=E1),
+    "C09": dict(text="injectivity of generated names through the public ExternalModuleCall.name with SYMBOLIC STRING parameter values (printable ASCII, repr() stubbed exactly for that alphabet) plus solver-enumerated adversarial words (quotes, backslash, 'None', newline, non-ASCII); memoisation across call forms; names independent of 120 call orders of Series/MosStack/handing-on generators",
+                note="repr() stub is exact only on the admitted alphabet (pre-condition); md5 collision-freeness assumed past the 128-character switch", tech=E1),
+    "C18": dict(text="all 3-operation edit histories (setattr / add(name=) / add) over a 2-3 letter alphabet and 7 value kinds on a Module, and the analogue on a Bundle: coherence invariant after every prefix and exported package = current objects; documented rejections",
+                note="all inputs are selectors: the solver's role is exhaustive enumeration (each path runs concretely)", tech=E1),
+    "C19": dict(text="Series.func executed with SYMBOLIC n through the generator body, instance array and slice resolution for 5 unit cells x every ordered series-port pair, compared with the documented chain topology written in the design DSL; MosStack; Wrapper incl. bundle-valued ports and pre-elaborated units; C06/C11 riders",
+                note="n bounded (<=3 quick, <=6 thorough); duck-typed params keep n symbolic (replay uses the real SeriesParams)", tech=E1),
     "C01": dict(text="7 design templates (slices/concats, port references + no-connects, bundles, arrays, pairs, hierarchy, construction styles) with symbolic widths, indices, sizes and connection selectors; exported package read as the VLSIR netlisters read it AND the emitted spice text, both compared with an independent union-find reference semantics on the leaf-level net partition, leaf devices and parameters",
                 note="trusted: reference semantics vlib/dsl.py (written from the documentation), package/spice readers vlib/pkgread.py, CrossHair/z3 + prelude", tech=E1),
     "C06": dict(text="closure validator (unique names, definition before use, ports name signals, each target port connected exactly once, in-range width-equal targets) + from_proto + spice and spectre netlisters as a post-condition on every explored path of the design templates; repository examples and built-in generators as concrete seeds",
